@@ -2922,7 +2922,13 @@ func (dsc *dataStoreCommand) setMove(source, destination, memberName string) (ou
 		return
 	}
 
-	added, wrongType := dsc.setAddWorkerUnlocked(destination, []string{memberName}, SET_NOT_EXIST)
+	if source == destination {
+		// moving a member onto its own set changes nothing
+		output.data = respInt(1)
+		return
+	}
+
+	_, wrongType := dsc.setAddWorkerUnlocked(destination, []string{memberName}, SET_NOT_EXIST)
 	if wrongType {
 		output.data = wrongTypeError
 		return
@@ -2930,8 +2936,13 @@ func (dsc *dataStoreCommand) setMove(source, destination, memberName string) (ou
 
 	ss.remove(memberName)
 	dsc.setModified(source)
+	if ss.count == 0 {
+		// the last member is gone: the source key goes with it
+		dsc.ds.data.remove(source)
+	}
 
-	output.data = respInt(added)
+	// the member was in the source and is now (only) in the destination
+	output.data = respInt(1)
 	return
 }
 
